@@ -839,3 +839,35 @@ def run(ctx):
                        "_substitute_virtual_line": "gfapy.ValueError"}))
     flush()
     ctx.exhaustive[R] = True
+
+
+    # ------------------------------------------------------------------
+    R = "C08.no_raising_generators"
+    ctx.rule(R, "no generator function of the line / Gfa classes raises a "
+             "library error: a generator consumed by a loop that writes to "
+             "the Gfa (reference initialisation) interleaves its checks with "
+             "the writes, so a refusal arrives after earlier iterations "
+             "committed", floor=300)
+    n_gen = 0
+    for f in sorted(repo.functions.values(), key=lambda f: f.qualname):
+        m = f.module.name
+        if not (m.startswith("gfapy.line.") or m.startswith("gfapy.lines.")
+                or m == "gfapy.gfa"):
+            continue
+        ctx.instance(R)
+        from ..model import walk_no_nested
+        is_gen = any(isinstance(n, (ast.Yield, ast.YieldFrom))
+                     for n in walk_no_nested(f.node))
+        raises = [n for n in walk_no_nested(f.node)
+                  if isinstance(n, ast.Raise) and n.exc is not None and
+                  "AssertionError" not in unparse(n.exc)]
+        ok = not (is_gen and raises)
+        n_gen += is_gen
+        ctx.oblige(ok)
+        if not ok:
+            ctx.violation(R, f.short, "yield + raise",
+                          "generator that can raise (%s): its callers run "
+                          "the loop body between the checks" %
+                          unparse(raises[0].exc)[:50])
+    ctx.notes["generator_functions_in_scope"] = n_gen
+    ctx.exhaustive[R] = True
